@@ -409,3 +409,37 @@ func recordFault(ev []Event, t string) bool {
 	}
 	return false
 }
+
+// checkOnce (C04 at the level of a whole project build): every body starts at most once, every
+// label is evaluated and completed at most once, and a target is reported evaluating only
+// after each of its dependencies has completed.
+func (x *searcher) checkOnce(s, n *State, o buildOpts, res *buildResult) {
+	bad := func(sig, what string) { x.violation("build:"+sig, what, s, n.Hist, res) }
+	runs := map[string]int{}
+	for _, st := range res.Steps {
+		runs[st]++
+	}
+	for b, c := range runs {
+		if c > 1 && o.Then == "" {
+			bad("body-ran-twice", fmt.Sprintf("the body of %s ran %d times in one build", b, c))
+		}
+	}
+	evaluating, done := map[string]int{}, map[string]int{}
+	for _, e := range res.Events {
+		switch e.Kind {
+		case "Evaluating":
+			evaluating[e.Label]++
+			if evaluating[e.Label] > 1 && o.Then == "" {
+				bad("evaluated-twice", fmt.Sprintf("%s was reported evaluating %d times in one build", e.Label, evaluating[e.Label]))
+			}
+			for _, d := range s.V.deps(e.Label) {
+				if done[d] == 0 && o.Then == "" {
+					bad("evaluating-before-dependency-finished", fmt.Sprintf("%s is evaluating although its dependency %s has not completed", e.Label, d))
+				}
+			}
+		case "UpToDate", "Succeeded", "Failed":
+			done[e.Label]++
+		}
+	}
+	x.r.Outcome("executed_sets", "once:"+setString(res.Executed))
+}
